@@ -3,6 +3,6 @@ CONSTANTS
   StrictA = FALSE
   CheckCat = FALSE
   CheckOrder = FALSE
-INVARIANTS ColdEqualsWarm ColdWellFormed
+INVARIANTS ColdEqualsWarm ColdWellFormed ReencodesExactly FlagsTruthful
 POSTCONDITION TraceAccepted
 CHECK_DEADLOCK FALSE
